@@ -142,12 +142,21 @@ CELL_MD = {0: {}, 1: {"collapsed": True, "scrolled": False},
            2: {"tags": ["a", "b"], "nested": {"k": [1, {"z": None}], "f": 1.5}, "collapsed": False},
            3: {"tags": ["a", "slow", "gpu", "shared", "reviewed", "b"], "nested": {"k": [1, {"z": None}], "f": 1.5},
                "collapsed": False},
-           4: {"tags": ["a", "shared", "b"], "nested": {"k": [1, {"z": None}], "f": 2.5}, "collapsed": True}}
+           4: {"tags": ["a", "shared", "b"], "nested": {"k": [1, {"z": None}], "f": 2.5}, "collapsed": True},
+           # left behind by an earlier conflicted merge (metadata strategy record-conflict)
+           5: {"tags": ["a", "b"], "collapsed": False,
+               "nbdime-conflicts": {"local_diff": [{"op": "add", "key": "collapsed", "value": True}],
+                                    "remote_diff": [{"op": "add", "key": "collapsed", "value": False}]}}}
 NB_MD = {0: {},
          1: {"kernelspec": {"display_name": "Python 3", "language": "python", "name": "python3"},
              "language_info": {"name": "python", "version": "3.8.1"}},
          2: {"kernelspec": {"display_name": "Python 3", "language": "python", "name": "python3"},
-             "custom": {"list": [[1, 2], [3]], "flag": True, "objs": [{"a": 1}, {"a": 2}]}}}
+             "custom": {"list": [[1, 2], [3]], "flag": True, "objs": [{"a": 1}, {"a": 2}]}},
+         # the product of an earlier conflicted merge, and the same after the conflict was resolved by hand
+         3: {"kernelspec": {"display_name": "Python 3", "language": "python", "name": "python3"}, "title": "draft",
+             "nbdime-conflicts": {"local_diff": [{"op": "replace", "key": "title", "value": "mine"}],
+                                  "remote_diff": [{"op": "replace", "key": "title", "value": "theirs"}]}},
+         4: {"kernelspec": {"display_name": "Python 3", "language": "python", "name": "python3"}, "title": "mine"}}
 ATT = {0: None, 1: {"image.png": {"image/png": B64A}},
        2: {"image.png": {"image/png": B64B}, "other.gif": {"image/gif": B64C}, "tiny.gif": {"image/GIF": TINY_A}},
        3: {"image.png": {"image/png": B64B}, "other.gif": {"image/gif": _b64("D", 51)}, "tiny.gif": {"image/GIF": TINY_B},
@@ -210,9 +219,9 @@ def random_abstract(r, ncells=None, minor=None):
         kind = r.choice(["code", "code", "markdown", "raw"])
         cells.append({"cid": i + 1, "fam": r.choice([1, 2, 3, 4, 5, 6, 11, 12, 13, 14, 15]), "kind": kind,
                       "src": r.choice([0, 0, 1, 2]), "outs": r.randint(0, 7) if kind == "code" else 0,
-                      "md": r.randint(0, 4), "ec": r.randint(0, 2) if kind == "code" else 0,
+                      "md": r.randint(0, 5), "ec": r.randint(0, 2) if kind == "code" else 0,
                       "att": r.randint(0, 3) if kind == "markdown" else 0})
-    return {"minor": r.choice([0, 1, 2, 4, 5, 5]) if minor is None else minor, "nbmd": r.randint(0, 2), "cells": cells}
+    return {"minor": r.choice([0, 1, 2, 4, 5, 5]) if minor is None else minor, "nbmd": r.randint(0, 4), "cells": cells}
 
 
 def random_edit(r, nb, newfams=(7, 8, 21, 22)):
@@ -262,7 +271,7 @@ def random_edit(r, nb, newfams=(7, 8, 21, 22)):
             label = ("EditOutputs", i, cells[i]["outs"])
     elif k < 0.80:
         i = r.randrange(n)
-        cells[i]["md"] = r.choice([v for v in range(5) if v != cells[i]["md"]])
+        cells[i]["md"] = r.choice([v for v in range(6) if v != cells[i]["md"]])
         label = ("EditCellMeta", i, cells[i]["md"])
     elif k < 0.86:
         cands = [i for i in range(n) if cells[i]["kind"] == "code"]
@@ -277,7 +286,7 @@ def random_edit(r, nb, newfams=(7, 8, 21, 22)):
             cells[i]["att"] = r.choice([v for v in range(4) if v != cells[i]["att"]])
             label = ("EditAttachment", i, cells[i]["att"])
     elif k < 0.97:
-        nb["nbmd"] = r.choice([v for v in range(3) if v != nb["nbmd"]])
+        nb["nbmd"] = r.choice([v for v in range(5) if v != nb["nbmd"]])
         label = ("EditNbMeta", nb["nbmd"])
     else:
         if nb["minor"] < 5:
